@@ -988,13 +988,22 @@ class World:
             while x is not None and len(chain) < 8:
                 chain.append(x)
                 x = x.__cause__ or x.__context__
-            if any(y is x for y in chain for x in ctx.injected):
-                self.count('probe.op_failed_with_injected_error')
-                return                       # an op may fail with the very error injected into it
             name = type(e).__name__
             if self.cfg.get('warn_error') and isinstance(e, Warning):
                 self.count('probe.warning_raised_as_error')
                 return                       # the caller asked for warnings to be errors (-W error)
+            if any(y is x for y in chain for x in ctx.injected):
+                # Errors are injected into cache-directory operations only (never into the source file):
+                # "every point of failure injected into the save/load/clean-up file operations" must leave
+                # the parse successful.  (Until round 6 an op was allowed to fail with the very error
+                # injected into it; measured on the repaired tree, that only ever happened through the
+                # warnings-as-errors knob above, so the allowance hid real failures and nothing else.)
+                self.count('probe.op_failed_with_injected_error')
+                site = _site(e)
+                self._violate(ctx, 'raises', 'raises-injected:%s@%s' % (name, site),
+                              'an error injected into a cache file operation escaped the parse: %s: %s at %s'
+                              % (name, str(e)[:160], site))
+                return
             for c in adm:
                 r = ref_outcome(version, c)
                 if r[0] == 'exc' and r[1] == name:
@@ -1205,9 +1214,36 @@ class World:
             # another parso installation (other pickle version) shares the cache directory
             base = pc._VERSION_TAG.rsplit('-', 1)[0]
             d = os.path.join(os.fspath(self.cdir(op.get('c', 0))), '%s-%d' % (base, pc._PICKLE_VERSION + op.get('dv', -1)))
-            fs.h_mkdirs(d)
+            dn = fs.h_mkdirs(d)
             some = pickle.dumps(pc._NodeCacheItem('tree of the other installation', ['x\n'], self.now), pickle.HIGHEST_PROTOCOL)
-            fs.h_write(os.path.join(d, 'aaaa-bbbb.pkl'), some)
+            n = fs.h_write(os.path.join(d, 'aaaa-bbbb.pkl'), some)
+            # when that installation saved the entry, when it last loaded it, and the directory's own mtime
+            # (a directory does not change when a file in it is read, or overwritten in place)
+            saved = self.now - op.get('saved_days', 0) * DAY
+            n.mtime = saved
+            n.atime = n.t_used = self.now - min(op.get('saved_days', 0), op.get('read_days', 0)) * DAY
+            dn = fs.h_node(d)
+            if dn is not None:
+                dn.mtime = saved
+        elif k == 'srcblock':
+            # the path handed to parse(code, path=...) cannot be stat'ed any more: its directory was replaced
+            # by a plain file (ENOTDIR) or lost its search permission (EACCES); 'ok' puts it back
+            f = op['f'] % len(self.files)
+            pdir = os.path.dirname(self.files[f])
+            saved = self.__dict__.setdefault('_blocked', {})
+            for key in list(saved):                      # at most one blocked directory at a time
+                par, name, node, mode = saved.pop(key)
+                par.children[name] = node
+                node.mode = mode
+            if op.get('how') in ('notdir', 'noperm'):
+                fs.h_mkdirs(pdir)
+                par, name = fs.parent(pdir)
+                node = par.children[name]
+                saved[pdir] = (par, name, node, node.mode)
+                if op['how'] == 'notdir':
+                    par.children[name] = fs._new(False, 0o644)
+                else:
+                    node.mode = 0
         elif k == 'rmlock':
             fs.h_remove(os.path.join(os.fspath(self.cdir(op.get('c', 0))), 'PARSO-CACHE-LOCK'))
         elif k == 'diskfull':
